@@ -54,6 +54,7 @@ func propC08(c *Ctx) {
 	c.Rule("R8.5", "a log is dropped from a shared block only when the same log index is already attached", 2)
 	checkLogsAddDedup(c, "R8.5")
 	checkLogsMergedNotReplaced(c, "R8.5")
+	checkTracesReplaced(c, "R8.5")
 
 	// ---- R8.2 -----------------------------------------------------------
 	c.Rule("R8.2", "the cached head is always a (number, hash) pair of one announced header", 5)
